@@ -46,6 +46,8 @@ type c11Scenario struct {
 	// RawReq: the cases carry a raw HTTP request; ClientCerts: the server instance uses client certificates
 	RawReq      bool `json:"raw_req,omitempty"`
 	ClientCerts bool `json:"client_certs,omitempty"`
+	// SlowErr: the runner's own stderr takes this many (virtual) seconds per line it is given
+	SlowErr int `json:"slow_err,omitempty"`
 }
 
 // --- scripted server process -------------------------------------------------
@@ -352,6 +354,7 @@ type c11Client struct {
 	// requests handed over although the server process had already exited when the call began
 	sentToDead []string
 	answers    map[string]string
+	inflight   int // asynchronous answers not delivered yet
 	srv        *c11Server
 }
 
@@ -377,6 +380,9 @@ func (c *c11Client) answerFor(k int, req *conformancev1.ClientCompatRequest) (*c
 			Payloads: []*conformancev1.ConformancePayload{{Data: []byte("wrong")}}, Feedback: feedback}}}, nil
 	case "clienterr":
 		return &conformancev1.ClientCompatResponse{TestName: req.TestName, Result: &conformancev1.ClientCompatResponse_Error{Error: &conformancev1.ClientErrorResult{Message: "client could not issue RPC"}}}, nil
+	case "clienterr-blank":
+		// the error member of the oneof is set; its text is empty / white space only
+		return &conformancev1.ClientCompatResponse{TestName: req.TestName, Result: &conformancev1.ClientCompatResponse_Error{Error: &conformancev1.ClientErrorResult{Message: " \n"}}}, nil
 	case "empty":
 		return &conformancev1.ClientCompatResponse{TestName: req.TestName}, nil
 	case "noresult":
@@ -420,11 +426,26 @@ func (c *c11Client) sendRequest(req *conformancev1.ClientCompatRequest, whenDone
 		whenDone(req.TestName, resp, err)
 		return nil
 	}
+	c.mu.Lock()
+	c.inflight++
+	c.mu.Unlock()
 	c.x.Go(fmt.Sprintf("client.answer#%d", nth), func() {
 		gate.Point("client.answer")
 		whenDone(req.TestName, resp, err)
+		c.mu.Lock()
+		c.inflight--
+		c.mu.Unlock()
+		gate.Poke()
 	})
 	return nil
+}
+
+// idle: every request handed to the client has had its completion callback (what run() waits
+// for, through closeSend/waitForResponses, before it reports).
+func (c *c11Client) idle() bool {
+	c.mu.Lock()
+	defer c.mu.Unlock()
+	return c.inflight == 0
 }
 
 func (c *c11Client) closeSend()              {}
@@ -479,6 +500,7 @@ func c11Cases(sc c11Scenario) []*conformancev1.TestCase {
 type c11Printer struct {
 	mu    sync.Mutex
 	lines []string
+	delay time.Duration // every line takes this long to write (a stalled terminal or log sink), virtual time
 }
 
 func (p *c11Printer) Printf(msg string, args ...any) {
@@ -487,6 +509,9 @@ func (p *c11Printer) Printf(msg string, args ...any) {
 	p.mu.Unlock()
 }
 func (p *c11Printer) PrefixPrintf(prefix, msg string, args ...any) {
+	if p.delay > 0 {
+		time.Sleep(p.delay)
+	}
 	p.mu.Lock()
 	p.lines = append(p.lines, prefix+": "+fmt.Sprintf(msg, args...))
 	p.mu.Unlock()
@@ -518,7 +543,7 @@ func c11RunOne(t *testing.T, sc c11Scenario, prefix []int, expect []gate.PointRe
 			}
 		}
 		results := newResults(len(cases), failing, flaky, nil)
-		errPrinter := &c11Printer{}
+		errPrinter := &c11Printer{delay: time.Duration(sc.SlowErr) * time.Second}
 		logPrinter := &c11Printer{}
 		ctx, cancel := context.WithCancel(context.Background())
 		var returned bool
@@ -558,23 +583,39 @@ func c11RunOne(t *testing.T, sc c11Scenario, prefix []int, expect []gate.PointRe
 			runTestCasesForServer(ctx, sc.RefClient, sc.RefServer,
 				serverInstance{protocol: conformancev1.Protocol_PROTOCOL_CONNECT, httpVersion: conformancev1.HTTPVersion_HTTP_VERSION_1, useTLS: sc.TLS, useTLSClientCerts: sc.ClientCerts},
 				cases, creds, clientCreds, srv.starter(), logPrinter, errPrinter, results, cl, nil, false)
+			// The batch is complete. As in run(), the report is produced once every batch has returned
+			// and the client has delivered the callbacks of everything it was sent - for the last
+			// batch of a run that is right away. Whatever the batch still does afterwards comes too late.
+			gate.PointIf("run.client-finished", cl.idle)
+			outcomes, sideband := map[string]testOutcome{}, map[string]string{}
+			results.mu.Lock()
+			for k, v := range results.outcomes {
+				outcomes[k] = v
+			}
+			for k, v := range results.serverSideband {
+				sideband[k] = v
+			}
+			results.mu.Unlock()
+			rp := &c11Printer{}
+			ok := results.report(rp)
+			after := map[string]testOutcome{}
+			results.mu.Lock()
+			for k, v := range results.outcomes {
+				after[k] = v
+			}
+			results.mu.Unlock()
 			retMu.Lock()
 			returned = true
+			obs.Outcomes, obs.Sideband = outcomes, sideband
+			obs.ReportOK, obs.Report, obs.AfterReport = ok, rp.lines, after
 			retMu.Unlock()
 		})
 		x.Run(time.Hour, nil)
 		retMu.Lock()
 		obs.Returned = returned
 		retMu.Unlock()
-		obs.Outcomes = map[string]testOutcome{}
-		if !mutexHeld(&results.mu) {
-			for k, v := range results.outcomes {
-				obs.Outcomes[k] = v
-			}
-			obs.Sideband = map[string]string{}
-			for k, v := range results.serverSideband {
-				obs.Sideband[k] = v
-			}
+		if obs.Outcomes == nil {
+			obs.Outcomes = map[string]testOutcome{}
 		}
 		obs.ErrLines = append([]string(nil), errPrinter.lines...)
 		cl.mu.Lock()
@@ -592,15 +633,6 @@ func c11RunOne(t *testing.T, sc c11Scenario, prefix []int, expect []gate.PointRe
 		obs.Stderr = string(srv.errEmitted)
 		srv.mu.Unlock()
 		x.End()
-		if obs.Returned {
-			rp := &c11Printer{}
-			obs.ReportOK = results.report(rp)
-			obs.Report = rp.lines
-			obs.AfterReport = map[string]testOutcome{}
-			for k, v := range results.outcomes {
-				obs.AfterReport[k] = v
-			}
-		}
 		srv.exit()
 		cancel()
 		synctest.Wait()
@@ -680,7 +712,7 @@ func c11Judge(sc c11Scenario, obs *c11Obs, x *gate.Exec) []gateVerdict {
 				if o.setupError || o.actualFailure != nil {
 					add("answered-case-lost-verdict:pass", "case %q was answered correctly but has outcome setup=%v failure=%v", n, o.setupError, o.actualFailure)
 				}
-			case "mismatch", "clienterr", "empty":
+			case "mismatch", "clienterr", "clienterr-blank", "empty":
 				if o.setupError || o.actualFailure == nil {
 					add("answered-case-lost-verdict:"+kind, "case %q was answered with %s but has outcome setup=%v failure=%v", n, kind, o.setupError, o.actualFailure)
 				}
@@ -865,7 +897,7 @@ func c11Scenarios(thorough bool) []c11Scenario {
 	base := func(n int) c11Scenario {
 		return c11Scenario{N: n, StdinErr: "none", Resp: "ok", ExitAfter: -1, SendErrAt: -1}
 	}
-	kinds := []string{"pass", "mismatch", "clienterr", "empty", "noresult"}
+	kinds := []string{"pass", "mismatch", "clienterr", "clienterr-blank", "empty", "noresult"}
 	for n := 1; n <= maxN; n++ {
 		// server faults before any case can run
 		for _, tls := range []bool{false, true} {
@@ -950,6 +982,14 @@ func c11Scenarios(thorough bool) []c11Scenario {
 			for _, ans := range [][]string{nil, {"mismatch"}} {
 				s := base(n)
 				s.RefServer, s.Stderr, s.Answers = true, st, ans
+				out = append(out, s)
+			}
+		}
+		// the runner's own stderr is slow: feedback queued behind other output must still be collected
+		for _, st := range [][]string{{"noise line\n", "s/c0: late feedback\n"}, {"noise 1\nnoise 2\ns/c0: late feedback\n"}, {"other/case: not mine\n", "s/c0: late feedback\n"}} {
+			for _, slow := range []int{4, 30} {
+				s := base(n)
+				s.RefServer, s.Stderr, s.SlowErr = true, st, slow
 				out = append(out, s)
 			}
 		}
